@@ -9,7 +9,7 @@ SPECS = {"batch": (BatchSpec(), "harness_batch", "runner-batch")}
 
 
 def run(ctx):
-    proofs_ok = ctx.check_proofs(PROP_FILES, extra_targets=["theories/Conc/Batch.vo"])
+    proofs_ok = ctx.check_proofs(PROP_FILES, extra_targets=["theories/Conc/Batch.vo", "theories/Conc/BatchMatcher.vo"])
     ok, out, exe = vlib.build_runner(module="harness_batch", exe_name="runner-batch")
     if not ok:
         ctx.violation("harness-build", "the harness does not build against the current tree: " + out[-1500:], {"build_output": out[-4000:]}, failing_input=False)
